@@ -30,7 +30,9 @@ NSINK = 4
 
 @st.composite
 def s_history(draw):
-    cfg = {"fallback": draw(st.booleans()), "fb_dssr": draw(st.booleans()), "omit_defaults": draw(st.booleans())}
+    cfg = {"fallback": draw(st.booleans()), "fb_dssr": draw(st.booleans()), "omit_defaults": draw(st.booleans()),
+           "equal_sinks": draw(st.sampled_from([False, False, True])),
+           "truthy_flags": draw(st.sampled_from([False, False, True]))}       # flags given as 1 / 0 instead of True / False
     if cfg["fallback"] and cfg["fb_dssr"] and draw(st.integers(0, 3)) == 0:
         # the fallback sink itself registers one more rule from inside its startTestRun / stopTestRun
         cfg["reentrant"] = {"when": draw(st.sampled_from(["start", "stop"])), "sink": 3, "test_id": "zz"}
@@ -89,11 +91,20 @@ def run_history(spec):
     from testtools.testresult.real import StreamResultRouter
     cfg = spec["cfg"]
     vs = []
-    sinks = [streams.Recorder("s%d" % i) for i in range(NSINK)]
+    Rec = streams.Recorder
+    if cfg.get("equal_sinks"):
+        class Rec(streams.Recorder):
+            """Sinks that all compare equal and cannot be hashed (as results built on dataclasses or with a value-style
+            __eq__ are): the router has to tell them apart by identity."""
+            __hash__ = None
+
+            def __eq__(self, other):
+                return isinstance(other, streams.Recorder)
+    sinks = [Rec("s%d" % i) for i in range(NSINK)]
     re_cfg = cfg.get("reentrant")
     fired = []
     if re_cfg:
-        class Reentrant(streams.Recorder):
+        class Reentrant(Rec):
             def _maybe(self, when):
                 if re_cfg["when"] == when and not fired:
                     fired.append(when)
@@ -125,13 +136,13 @@ def run_history(spec):
         if k in ("route", "id"):
             kw = {}
             if op["dssr"] or op["explicit_dssr"]:
-                kw["do_start_stop_run"] = op["dssr"]
+                kw["do_start_stop_run"] = int(op["dssr"]) if cfg.get("truthy_flags") else op["dssr"]
             if k == "route":
                 if not op["consume"] and cfg.get("omit_defaults"):
                     router.add_rule(sinks[op["sink"]], "route_code_prefix", route_prefix=op["prefix"], **kw)    # consume_route defaults to False
                 else:
                     router.add_rule(sinks[op["sink"]], "route_code_prefix", route_prefix=op["prefix"],
-                                    consume_route=op["consume"], **kw)
+                                    consume_route=int(op["consume"]) if cfg.get("truthy_flags") else op["consume"], **kw)
                 prefixes[op["prefix"]] = (op["sink"], op["consume"])
             else:
                 router.add_rule(sinks[op["sink"]], "test_id", test_id=op["test_id"], **kw)
